@@ -51,22 +51,36 @@ class Calls:
 
     def eval_args(self, it, e):
         args = []
+        packs = []          # sequence terms of all positional arguments, in order (for *seq of symbolic length)
+        symbolic = False
         for a in e.args:
             if isinstance(a, ast.Starred):
                 v = it.ev(a.value)
                 seq = self.world.loops.iter_seq(it, v)
                 n = simp(z3.Length(seq))
+                packs.append(seq)
                 if not z3.is_int_value(n):
-                    raise Unsupported(f'*args of unknown length@{e.lineno}')
+                    symbolic = True
+                    continue
                 ety = O._elem_type(v.ty) if isinstance(v, SV) else None
                 args.extend(SV(simp(seq[j]), ety) for j in range(n.as_long()))
             else:
-                args.append(it.ev(a))
+                v = it.ev(a)
+                args.append(v)
+                packs.append(z3.Unit(it.as_val(v)) if isinstance(v, SV) else None)
         kwargs = {}
         for k in e.keywords:
             if k.arg is None:
+                if len(e.keywords) == 1 and not e.args:
+                    return [], {'**': it.ev(k.value)}
                 raise Unsupported(f'**kwargs call@{e.lineno}')
             kwargs[k.arg] = it.ev(k.value)
+        if symbolic:
+            # f(*seq) with a sequence of symbolic length: only abstract callees can take it (as one pack)
+            if kwargs or any(p is None for p in packs):
+                raise Unsupported(f'*args of unknown length@{e.lineno}')
+            allseq = packs[0] if len(packs) == 1 else z3.Concat(*packs)
+            return [], {'*': SV(V.TupleV(allseq))}
         return args, kwargs
 
     def call_value(self, it, f, args, kwargs, node):
@@ -375,7 +389,7 @@ class Calls:
 def _static(fty):
     """schema field type -> static type tag carried by SV"""
     fty = fty.replace('|none', '')
-    if fty in ('int', 'float', 'bool', 'str', 'bytes', 'number', 'any', 'tuple', 'list', 'dict', 'set', 'none'):
+    if fty in ('float', 'number', 'any', 'set', 'none'):
         return None
     return fty
 
@@ -401,7 +415,7 @@ class Builtins:
              'implies', 'num_eq', 'same_num', 'is_ascii', 'py_eq', 'is_obj', 'forall_items', 'is_seq', 'keys_of',
              'is_canonical_b64', 'b64_text', 'is_instance_of', 'class_of', 'is_whole', 'realnum', 'is_ok_float',
              'fresh_from', 'is_fresh', 'same_object', 'is_valid_b64', 'b64_bytes', 'mk_enum',
-             'seq_eq', 'is_wire', 'in_universe', 'on_grid', 'same_value', 'enum_owned', 'forall_int', 'forall_str', 'exists_int', 'has_dyn', 'is_prefix', 'unchanged', 'as_float', 'enum_has_name', 'enum_code', 'enum_has_code', 'enum_name'}
+             'seq_eq', 'is_wire', 'in_universe', 'on_grid', 'same_value', 'enum_owned', 'forall_int', 'forall_str', 'exists_int', 'has_dyn', 'is_prefix', 'unchanged', 'last', 'nth', 'held', 'time_time', 'time_sleep', 'as_float', 'enum_has_name', 'enum_code', 'enum_has_code', 'enum_name'}
 
     def call(self, it, name, args, kwargs, node):
         m = getattr(self, 'bi_' + name, None)
@@ -489,6 +503,42 @@ class Builtins:
 
     def bi_exists_int(self, it, a, k, n):
         return self._forall(it, a[0], IntS, V.IntV, exists=True)
+
+    def bi_time_time(self, it, a, k, n):
+        """time.time(): some non-negative float, never earlier than the previous reading"""
+        t = it.fresh('now', z3.RealSort())
+        prev = it.ghost.get('clock!')
+        it.assume(t >= (prev if prev is not None else 0))
+        it.assume(t <= vals.FMAXR)
+        it.ghost['clock!'] = t
+        return SV(V.FloatV(t))
+
+    def bi_time_sleep(self, it, a, k, n):
+        if 'slept' in self.world.ghost_names:
+            seq = self.world.ghost_seq(it, 'slept')
+            it.ghost['slept'] = z3.Concat(seq, z3.Unit(a[0].t))
+        return SV(V.NoneV)
+
+    def bi_held(self, it, a, k, n):
+        """the lock is held by the executing thread at this point (ghost set of held locks)"""
+        return SV(V.BoolV(z3.Or(*[l == a[0].t for l in it.locks]) if it.locks else z3.BoolVal(False)))
+
+    def bi_last(self, it, a, k, n):
+        """last entry of a ghost log (total: unspecified for an empty log)"""
+        seq = vals.seqitems(a[0].t)
+        el = simp(seq[z3.Length(seq) - 1])
+        return SV(el, O._elem_type(a[0].ty))
+
+    def bi_nth(self, it, a, k, n):
+        """component of a ghost log record (total, no bounds check)"""
+        j = simp(O.ival(a[1].t))
+        el = simp(V.titems(a[0].t)[j])
+        ty = None
+        if len(a) > 2:
+            ty = self.world.dynattr.const_name(a[2])      # declared kind of the component, e.g. 'tuple'
+            if ty:
+                self.world.element_kind(it, el, ty)
+        return SV(el, ty)
 
     def bi_unchanged(self, it, a, k, n):
         """frame: the heap field has the same content for every object as at entry (postconditions only)"""
@@ -603,20 +653,29 @@ class Builtins:
         return SV(V.BoolV(z3.Not(z3.Or(V.is_SetV(t), V.is_ObjV(t), V.is_ClsV(t)))))
 
     def bi_is_wire(self, it, a, k, n):
-        """a value json.loads can produce, at every depth (unfolded one level per use)"""
-        t = a[0].t
+        """a value json.loads can produce, at every depth (unfolded per level once the kind is known)"""
+        t = it.refine(a[0].t)
+        W = self.world.uf('is_wire!', [Val, BoolS])
+        top = z3.Or(V.is_NoneV(t), V.is_BoolV(t), V.is_IntV(t), vals.is_floatlike(t), V.is_StrV(t),
+                    V.is_ListV(t), V.is_DictV(t))
+        it.assume_axiom(z3.Implies(W(t), top))
+        c = O.ctor(t)
+        if c in ('ListV', 'DictV'):
+            self.wire_unfold(it, t)
+        elif c is None:
+            it.wire_terms.append(t)
+        elif c in ('NoneV', 'BoolV', 'IntV', 'FloatV', 'PInf', 'NInf', 'NaN', 'StrV'):
+            return SV(const(True))
+        return SV(V.BoolV(W(t)))
+
+    def wire_unfold(self, it, t):
         W = self.world.uf('is_wire!', [Val, BoolS])
         i = z3.Int('i!wire')
         kx = z3.String('k!wire')
-        top = z3.Or(V.is_NoneV(t), V.is_BoolV(t), V.is_IntV(t), vals.is_floatlike(t), V.is_StrV(t),
-                    V.is_ListV(t), V.is_DictV(t))
-        it.assume_axiom(W(t) == z3.And(
-            top,
-            z3.Implies(V.is_ListV(t), z3.ForAll([i], z3.Implies(z3.And(0 <= i, i < z3.Length(V.litems(t))),
-                                                              W(V.litems(t)[i])))),
-            z3.Implies(V.is_DictV(t), z3.ForAll([kx], z3.Implies(z3.Select(V.dhas(t), kx),
-                                                               W(z3.Select(V.dmap(t), kx)))))))
-        return SV(V.BoolV(W(t)))
+        if O.ctor(t) == 'ListV':
+            it.assume_axiom(W(t) == z3.ForAll([i], z3.Implies(z3.And(0 <= i, i < z3.Length(t.arg(0))), W(t.arg(0)[i]))))
+        elif O.ctor(t) == 'DictV':
+            it.assume_axiom(W(t) == z3.ForAll([kx], z3.Implies(z3.Select(t.arg(1), kx), W(z3.Select(t.arg(2), kx)))))
 
     def bi_b64_text(self, it, a, k, n):
         return SV(V.StrV(B64ENC(V.by(a[0].t))))
@@ -1218,6 +1277,24 @@ class Builtins:
             ln = simp(z3.Length(V.titems(p))).as_long()
             return SV(V.BoolV(z3.Or(*[z3.SuffixOf(V.s(simp(V.titems(p)[j])), V.s(obj.t)) for j in range(ln)])))
         return SV(V.BoolV(z3.SuffixOf(V.s(p), V.s(obj.t))))
+
+    def dm_split(self, it, obj, a, k):
+        self._need(it, obj, V.is_StrV, '.split()')
+        if len(a) != 2:
+            raise Unsupported('str.split without separator and maxsplit')
+        sep, mx = it.refine(a[0].t), it.refine(a[1].t)
+        if not (O.ctor(mx) == 'IntV' and z3.is_int_value(simp(mx.arg(0))) and simp(mx.arg(0)).as_long() == 1 and O.ctor(sep) == 'StrV'):
+            raise Unsupported('str.split supports only split(sep, 1)')
+        sv = V.s(obj.t)
+        sp = sep.arg(0)
+        if it.branch(z3.Contains(sv, sp), 'split'):
+            # head / tail of the first occurrence: functions of (string, separator)
+            H = self.world.uf('split_head!', [StrS, StrS, StrS])
+            T = self.world.uf('split_tail!', [StrS, StrS, StrS])
+            h, t = H(sv, sp), T(sv, sp)
+            it.assume_axiom(z3.Implies(z3.Contains(sv, sp), z3.And(sv == z3.Concat(h, sp, t), z3.Not(z3.Contains(h, sp)))))
+            return SV(V.ListV(vals.valseq([V.StrV(h), V.StrV(t)])), 'list:str')
+        return SV(V.ListV(vals.valseq([V.StrV(sv)])), 'list:str')
 
     def dm_replace(self, it, obj, a, k):
         self._need(it, obj, V.is_StrV, '.replace()')
